@@ -552,13 +552,28 @@ fn dt_to_generalized(dt: OffsetDateTime) -> GeneralizedTime {
 	GeneralizedTime::from_datetime(date_time)
 }
 
-fn write_dt_utc_or_generalized(writer: DERWriter, dt: OffsetDateTime) {
+/// Converts a date to UTC, truncated to whole seconds
+///
+/// Fails if the UTC value can not be encoded in X.509 (years 0 to 9999).
+fn dt_to_utc(dt: OffsetDateTime) -> Result<OffsetDateTime, Error> {
+	let dt = OffsetDateTime::from_unix_timestamp(dt.unix_timestamp()).or(Err(Error::Time))?;
+	match dt.year() {
+		0..=9999 => Ok(dt),
+		_ => Err(Error::Time),
+	}
+}
+
+fn write_dt_utc_or_generalized(writer: DERWriter, dt: OffsetDateTime) -> Result<(), Error> {
 	// RFC 5280 requires CAs to write certificate validity dates
 	// below 2050 as UTCTime, and anything starting from 2050
 	// as GeneralizedTime [1]. The RFC doesn't say anything
 	// about dates before 1950, but as UTCTime can't represent
 	// them, we have to use GeneralizedTime if we want to or not.
 	// [1]: https://tools.ietf.org/html/rfc5280#section-4.1.2.5
+	//
+	// The year that matters is the one of the UTC value, whatever
+	// offset the caller used to express the date.
+	let dt = dt_to_utc(dt)?;
 	if (1950..2050).contains(&dt.year()) {
 		let date_time = dt_strip_nanos(dt);
 		let ut = UTCTime::from_datetime(date_time);
@@ -567,6 +582,7 @@ fn write_dt_utc_or_generalized(writer: DERWriter, dt: OffsetDateTime) {
 		let gt = dt_to_generalized(dt);
 		writer.write_generalized_time(&gt);
 	}
+	Ok(())
 }
 
 fn write_distinguished_name(writer: DERWriter, dn: &DistinguishedName) {
